@@ -142,7 +142,7 @@ func (c *evalCtx) eval(e ast.Expr) tval {
 			keep = x.Op == token.LAND
 		case *ast.CallExpr:
 			switch fn := exprString(x.Fun); fn {
-			case "forall", "forallk", "imp", "old":
+			case "forall", "forallk", "imp", "old", "since":
 				keep = true
 			default:
 				_, keep = c.r.v.spec.Preds[fn]
@@ -230,6 +230,12 @@ func (c *evalCtx) ident(name string) tval {
 	}
 	if v, ok := c.vars[name]; ok {
 		return v
+	}
+	if v, ok := c.vars["&"+name]; ok {
+		// a local variable that lives in a memory cell (address taken / captured / named result with defer)
+		if pt, isP := v.T.Underlying().(*types.Pointer); isP {
+			return tval{c.r.v.readLoc(c.st, c.cur, c.r.v.derefLoc(v.V, pt.Elem())), pt.Elem()}
+		}
 	}
 	if gv, ok := c.r.v.spec.GhostVars[name]; ok {
 		t := c.parseType(gv.Type)
@@ -818,6 +824,49 @@ func (c *evalCtx) call(x *ast.CallExpr) tval {
 			}
 		}
 		return tval{And(parts...), tBool}
+	case "since":
+		// since(S, e): e evaluated with old() referring to the named snapshot S
+		sn, ok := c.st.snaps[identArg(0)]
+		if !ok {
+			if c.lenient {
+				return tval{BoolLit(true), tBool}
+			}
+			c.fail("unknown snapshot %s", identArg(0))
+		}
+		n := *c
+		n.old = sn
+		return n.eval(arg(1))
+	case "allocmark":
+		// allocmark(): the allocation counter of the state the expression is evaluated in
+		a := c.st.alloc
+		if c.cur != nil {
+			a = c.cur.alloc
+		}
+		return tval{a, tInt}
+	case "preservedBelow":
+		// preservedBelow(bound, comp...): the components agree with the old state at every reference <= bound
+		if c.old == nil {
+			c.fail("preservedBelow() needs an old state")
+		}
+		bound := c.term(arg(0))
+		var parts []Term
+		for i := 1; i < len(x.Args); i++ {
+			name := strings.ReplaceAll(strings.Trim(exprString(arg(i)), `"`), " ", "")
+			for _, comp := range c.r.v.expandMods([]string{name}) {
+				sig, ok := c.st.compSig[comp]
+				if !ok {
+					if sg, found := c.r.v.sigOfComp(comp); found {
+						c.st.compSig[comp] = sg
+						sig, ok = sg, true
+					}
+				}
+				if !ok {
+					c.fail("preservedBelow: unknown component %s", comp)
+				}
+				parts = append(parts, c.r.frameFormula(sig, c.st.compAt(c.cur, comp, sig), c.st.compAt(c.old, comp, sig), bound, nil, true))
+			}
+		}
+		return tval{And(parts...), tBool}
 	case "preservedAt":
 		// preservedAt(comp, ref): the component agrees with the old state at every old reference but ref
 		if c.old == nil {
@@ -986,10 +1035,27 @@ func (c *evalCtx) goalParts(e ast.Expr) []goalPart {
 				}
 			}
 		}
+		if fname == "since" && len(x.Args) == 2 {
+			sub := c.goalParts(x.Args[1])
+			if len(sub) > 1 {
+				var out []goalPart
+				for _, sp := range sub {
+					out = append(out, goalPart{&ast.CallExpr{Fun: x.Fun, Args: []ast.Expr{x.Args[0], sp.e}}, sp.ctx})
+				}
+				return out
+			}
+		}
 		if (fname == "preserved" || fname == "unchanged") && len(x.Args) > 1 {
 			var out []goalPart
 			for _, a := range x.Args {
 				out = append(out, goalPart{&ast.CallExpr{Fun: x.Fun, Args: []ast.Expr{a}}, c})
+			}
+			return out
+		}
+		if fname == "preservedBelow" && len(x.Args) > 2 {
+			var out []goalPart
+			for _, a := range x.Args[1:] {
+				out = append(out, goalPart{&ast.CallExpr{Fun: x.Fun, Args: []ast.Expr{x.Args[0], a}}, c})
 			}
 			return out
 		}
@@ -1168,7 +1234,16 @@ func substExpr(e ast.Expr, sub map[string]ast.Expr, suffix string) ast.Expr {
 		case "typeis":
 			n.Args = append(n.Args, substExpr(x.Args[0], sub, suffix), x.Args[1])
 			return n
-		case "preserved", "unchanged":
+		case "preserved", "unchanged", "preservedAt", "preservedBelow":
+			if fn == "preservedAt" || fn == "preservedBelow" {
+				k := 1
+				if fn == "preservedBelow" {
+					k = 0
+				}
+				n.Args = append([]ast.Expr(nil), x.Args...)
+				n.Args[k] = substExpr(x.Args[k], sub, suffix)
+				return n
+			}
 			return x
 		}
 		for _, a := range x.Args[start:] {
